@@ -29,9 +29,33 @@ fn mask(r: &BlockRange) -> u16 {
     m
 }
 
+#[derive(Debug, PartialEq)]
+pub struct BlockRangesError;
+
 impl BlockRanges {
     pub fn new() -> Self {
         BlockRanges(0)
+    }
+    /// The contract C18 decides for the real `check_insertion_constraints`: Ok exactly for a
+    /// valid range sharing no height with the set that is the first range, lies above everything,
+    /// or touches a member; the flags say whether the heights just below / just above are members.
+    pub fn check_insertion_constraints(&self, r: impl std::borrow::Borrow<BlockRange>) -> Result<(bool, bool), BlockRangesError> {
+        let r = r.borrow();
+        let (a, e) = (*r.start(), *r.end());
+        if !(a >= 1 && a <= e) {
+            return Err(BlockRangesError);
+        }
+        assert!(e <= MAXH, "bitset BlockRanges model: height above the modelled universe");
+        if self.0 & mask(r) != 0 {
+            return Err(BlockRangesError);
+        }
+        let below = a > 1 && self.contains(a - 1);
+        let above = self.contains(e + 1);
+        let above_all = match self.head() {
+            None => true,
+            Some(h) => a > h,
+        };
+        if above_all || below || above { Ok((below, above)) } else { Err(BlockRangesError) }
     }
     pub fn any() -> Self {
         let b: u16 = kani::any();
